@@ -1033,6 +1033,14 @@ class SimThread:
                 if info is not None:
                     info['reader_failed'] = True    # its report cannot be read by the parent
                 raise RuntimeError("can't start new thread (injected)")
+        if env.knobs.get('main_thread_start_fail') and s.active and s.current is s.main:
+            # ... or the worker thread of a layer itself, started by the main thread
+            env.main_starts = getattr(env, 'main_starts', 0) + 1
+            if env.main_starts == env.knobs['main_thread_start_fail']:
+                s.probe('main_thread_start_fail_injected')
+                env.fired.append('main_thread_start_fail')
+                s.log.append(('thread-start-fail', self.name))
+                raise RuntimeError("can't start new thread (injected)")
         self.task.state = 'runnable'
         self.real = real_threading.Thread(target=self._body, daemon=True,
                                           name='vsim-' + self.name)
